@@ -39,11 +39,15 @@ pub struct Scenario {
     pub active_redirection: bool,
     pub wide: bool, // member of the wide thorough family (explored one deferral shallower)
     pub lone_deferral: bool, // a request may be deferred even when nothing else is pending at that moment (thorough)
+    /// "slow scanner" variant of the default schedule: a pending SCAN of the migration's scan loop
+    /// is served only when no other request is pending (the real scanner pauses between batches),
+    /// so that the push / pull paths get ahead of the scan without spending deferrals on it
+    pub slow_scan: bool,
 }
 
 impl Scenario {
     fn label(&self) -> String {
-        format!("init {:?} clients {:?} start-after {:?} scan_count {} conns {} redirect {}", self.init, self.clients, self.thresholds, self.scan_count, self.conn_num, self.active_redirection)
+        format!("init {:?} clients {:?} start-after {:?} scan_count {} conns {} redirect {}{}", self.init, self.clients, self.thresholds, self.scan_count, self.conn_num, self.active_redirection, if self.slow_scan { " slow-scan" } else { "" })
     }
 }
 
@@ -257,7 +261,12 @@ async fn run_schedule(sc: &Scenario, prefix: &[usize], horizon: usize) -> RunOut
         let held_c = |c: &usize| deferred_clients.get(c).map(|u| s < *u).unwrap_or(false);
         let held_r = |id: &u64| deferred_reqs.get(id).map(|u| s < *u).unwrap_or(false);
         let fresh_clients: Vec<usize> = eligible_clients.iter().cloned().filter(|c| !held_c(c)).collect();
-        let fresh_reqs: Vec<&ReqInfo> = pending.iter().filter(|p| !held_r(&p.id)).collect();
+        let is_scan = |p: &ReqInfo| p.cmds.first().and_then(|c| c.first()).map(|b| b.eq_ignore_ascii_case(b"SCAN")).unwrap_or(false);
+        let mut fresh_reqs: Vec<&ReqInfo> = pending.iter().filter(|p| !held_r(&p.id)).collect();
+        if sc.slow_scan {
+            // stable: everything else in arrival order, then the scan loop's SCAN requests
+            fresh_reqs.sort_by_key(|p| is_scan(p));
+        }
         let old_reqs: Vec<&ReqInfo> = pending.iter().filter(|p| held_r(&p.id)).collect();
         // (kind, id): 1 = client op, 0 = serve request, 2 = advance
         let default_action: (u8, u64) = if let Some(c) = fresh_clients.first() {
@@ -500,7 +509,7 @@ fn scenarios(thorough: bool) -> Vec<Scenario> {
     let mut push = |init: [Option<(String, bool)>; 3], clients: Vec<(usize, Vec<COp>)>, scan_count: u64, conn_num: usize, red: bool| {
         for a in &grid {
             for b in &grid {
-                s.push(Scenario { init: init.clone(), clients: clients.clone(), thresholds: vec![*a, *b], scan_count, conn_num, active_redirection: red, wide: false, lone_deferral: thorough });
+                s.push(Scenario { init: init.clone(), clients: clients.clone(), thresholds: vec![*a, *b], scan_count, conn_num, active_redirection: red, wide: false, lone_deferral: thorough, slow_scan: false });
             }
         }
     };
@@ -539,6 +548,12 @@ fn scenarios(thorough: bool) -> Vec<Scenario> {
     for (i, x) in s.iter_mut().enumerate() {
         x.wide = i >= core;
     }
+    // slow-scanner variants (appended, so that the indices of the scenarios above stay stable):
+    // the core scenarios with a command that takes the push path (UMSYNC) or expires a key,
+    // submitted once the migration is past its pre-switch
+    let pushes = |c: &Vec<(usize, Vec<COp>)>| c.iter().any(|(_, ops)| ops.iter().any(|o| matches!(o, Del(_) | Expire(_))));
+    let extra: Vec<Scenario> = s[..core].iter().filter(|x| pushes(&x.clients) && x.thresholds.iter().all(|t| *t >= 4)).cloned().map(|mut x| { x.slow_scan = true; x }).collect();
+    s.extend(extra);
     s
 }
 
